@@ -171,7 +171,92 @@ theorem cleanup_failure_reach {w : World} (h : Reach cfg w) (o : Op) (order : Li
   rw [hf]
   exact Reach.op o order f h hc
 
+/-- **a failed clean-up is resolved by the sweep, for all DIDs together** (end to end: DB error in the second
+    transaction → sweep): in a reachable world without change records, an operation whose clean-up transaction fails —
+    whether or not the did:nuts Commit had failed before —, followed by more than `threshold` seconds and the sweep:
+    EITHER the rows are exactly those from before the operation, OR every DID keeps the new version, no change record is
+    left and the did:nuts network shows exactly that version. -/
+theorem cleanup_failure_resolved (hfix : Fixed cfg) (hms : cfg.methods.Nodup) {w0 w1 : World} (h : Reach cfg w0)
+    (hnone : ∀ r ∈ w0.dids, ∀ v ∈ r.vers, v.pending = none) {o : Op} {chs : List Change}
+    (ht : tx1 cfg w0 o = .ok (w1, chs)) (hne : chs.isEmpty = false) (order : List Method) (nf : Bool)
+    (d : Nat) (hd : cfg.threshold < d) (ord : List Nat → List Nat) (hord : ∀ l, (ord l).Perm l) :
+    let wF := (stepOpCleanupFails cfg w0 o order nf).1
+    let w2 := (sweep cfg ord (tick d wF)).1
+    (w2.dids = w0.dids ∨
+     (w2.dids = wF.dids.map (clearRow w0.next) ∧
+      ∀ r ∈ wF.dids, ∀ v vs p, r.vers = v :: vs → v.pending = some p → r.method = .nuts →
+        pubLatest w2.pub r.id = some v.c)) ∧
+    w2.pub = wF.pub := by
+  obtain ⟨k, hk, hph⟩ := cleanup_failure_stop_point order nf ht hne
+  intro wF w2
+  have := stopped_operation_resolved hfix hms h hnone ht order k hph d hd ord hord
+  simp only [w2, wF, hk]
+  exact this
+
+/-- **`FindServices` shows a service on every DID of the subject or on none**: in every reachable world (any requests,
+    faults, stops, sweeps before), if the answer names one DID of the subject as owner of a service of the requested
+    type, it names every DID of the subject -/
+theorem find_services_all_dids_or_none (hfix : Fixed cfg) (hms : cfg.methods.Nodup) {w : World} (h : Reach cfg w)
+    (s : String) (typ : Option String) {found : List (Nat × String)} (hf : findServices w s typ = .ok found)
+    (l : String) {d : Nat} (hd : (d, l) ∈ found) : ∀ r ∈ listDIDs w s, (r.id, l) ∈ found := by
+  unfold findServices at hf
+  simp only at hf
+  split at hf
+  · cases hf
+  · split at hf
+    · cases hf
+    · cases hf
+      intro r hr
+      obtain ⟨r0, hr0, hm⟩ := List.mem_flatMap.mp hd
+      refine List.mem_flatMap.mpr ⟨r, hr, ?_⟩
+      have hs : r0.subject = r.subject := by
+        have a := (List.mem_filter.mp hr0).2
+        have b := (List.mem_filter.mp hr).2
+        simp only [decide_eq_true_eq] at a b
+        rw [a, b]
+      have hu := (uniform_versions hfix hms h r0 (List.mem_filter.mp hr0).1 r (List.mem_filter.mp hr).1 hs).2.1
+      unfold servicesOfRow at hm ⊢
+      cases hv0 : r0.vers with
+      | nil => rw [hv0] at hm; cases hm
+      | cons v0 vs0 =>
+        cases hv : r.vers with
+        | nil => rw [hv0, hv] at hu; cases hu
+        | cons v vs =>
+          rw [hv0] at hm
+          rw [hv0, hv] at hu
+          simp only [List.map_cons, List.cons.injEq] at hu
+          simp only [loadContent, List.mem_map, List.mem_filter] at hm ⊢
+          obtain ⟨l', ⟨hl1, hl2⟩, hl3⟩ := hm
+          have : l' = l := (Prod.mk.injEq .. ▸ hl3).2
+          subst this
+          exact ⟨l', ⟨by rw [← hu.1]; exact hl1, hl2⟩, rfl⟩
+
+/-- as coded, a request WITHOUT a service type finds nothing, whatever the documents hold -/
+theorem find_services_without_type_finds_nothing (w : World) (s : String) {found : List (Nat × String)}
+    (hf : findServices w s none = .ok found) : found = [] := by
+  unfold findServices at hf
+  simp only at hf
+  split at hf
+  · cases hf
+  · split at hf
+    · cases hf
+    · cases hf
+      apply List.eq_nil_iff_forall_not_mem.mpr
+      intro x hx
+      obtain ⟨r, _, hm⟩ := List.mem_flatMap.mp hx
+      unfold servicesOfRow at hm
+      split at hm
+      · simp at hm
+      · cases hm
+
 end
+
+example :
+    let cfg := cfgNow [.nuts, .web]
+    let w0 := (stepOp cfg {} (.create "s") [.nuts, .web] .none).1
+    let w1 := (stepOp cfg w0 (.addSvc "s" "A") [.nuts, .web] .none).1
+    findServices w1 "s" (some "A") = .ok [(0, "A"), (1, "A")] ∧ findServices w1 "s" (some "B") = .ok [] ∧
+    findServices w1 "s" none = .ok [] ∧ findServices w1 "t" (some "A") = .err "nosubject" := by decide
 
 /-- the caller of an operation whose clean-up failed is told so, and the change records are still there: the sweep has
     something to find (non-vacuity of `cleanup_failure_reach`; both flavours; after the threshold the sweep keeps the
